@@ -7,7 +7,10 @@ PID = "C03"
 MANIFEST = {
     "technique": "Lean 4 invariants by induction over all programs of a hand model of CodeHolder (labels, fixups, bind, resolve, "
                  "embed_label[_delta]) + x86/a64 reference sites, independent reference-semantics monitor, C++/Lean correspondence",
-    "text": "Lean proves for every program (list of API calls, any interleaving): the unresolved counter equals the number of pending "
+    "text": "Lean proves by induction over ALL programs of the menu (disjoint-regions invariant, Props/C03E): after flatten + resolve every "
+            "reference ever created through a fixup designates exactly section offset(label) + label offset - site + addend under the "
+            "independent field decoder, or is still on a fixup list with an untouched zero field and the counter is positive "
+            "(resolved_ref_correct, never_truncates, count_zero_all_resolved). Also for every program (list of API calls, any interleaving): the unresolved counter equals the number of pending "
             "fixups at every step (zero iff none remain), every pending fixup sits on an unbound label or on the cross-section list "
             "naming a bound label, a fixup is dropped only after write_offset accepted exactly `label - site + addend` (never a "
             "truncated value; C17 gives the byte meaning of an accepted write), failed patches stay counted and return "
@@ -17,12 +20,13 @@ MANIFEST = {
             "references); the Lean monitor decodes every reference field of the real buffers with an independent ISA-level reading "
             "and compares with the ghost label positions.",
     "note": "Trusted: Lean kernel; Spec/RefSemantics.lean (what a reference field designates) and Spec/Offset.lean; the menu of "
-            "instruction shapes (opaque non-field bytes, compared byte for byte); harness/driver/diff. The byte-level end-to-end "
-            "statement (the monitor holds on every model run) is checked by the monitor on every explored program and proved in "
-            "layers (bookkeeping invariants + per-write exactness from C17), not as one theorem. Buffer growth, set_offset, named "
+            "instruction shapes (opaque non-field bytes, compared byte for byte); harness/driver/diff. The end-to-end theorems are stated on the model's "
+            "ghost log of fixup records with the Spec/Offset field decoder; the last step to the CPU reading of Spec/RefSemantics "
+            "(end of instruction + disp; opcode-based field location) and references encoded directly against an already bound "
+            "label are judged by the monitor on every explored program, not proved. Buffer growth, set_offset, named "
             "labels and the Builder path are not modelled. Model follows the repaired code (fixes/C03-1, C03-2).",
 }
-MODS = ["AsmjitVerif.Props.C03"]
+MODS = ["AsmjitVerif.Props.C03", "AsmjitVerif.Props.C03E"]
 M64 = (1 << 64) - 1
 
 JK = ["jmp", "jz", "call", "jecxz", "loop"]
